@@ -237,6 +237,53 @@ V("v_single_visible_frame", "compose", "C19 / C02 as a lemma over the contracts 
 V("v_frame_image_api", "tilemap_api", "Frame::image == frame_image of that frame (the layer-order fold with hidden layers skipped)", ["file::Frame::image"], fn="Frame::image", witness="x_frames_vs_spec")
 V("v_cel_image_api", "tilemap_api", "Cel::image == layer_image of that cel id: sprite-sized, the cel over transparent black, blank if the slot is empty", ["cel::Cel::image"], fn="Cel::image", witness="x_routes")
 V("v_tilemap_image_api", "tilemap_api", "Tilemap::image is the image of its cel (same pixel function as Cel::image)", ["tilemap::Tilemap::image"], fn="Tilemap::image", witness="x_tilemap_views")
+V("v_add_external_files", "dec_ext", "ParseInfo::add_external_files: the table after the call is the fold of `add` over the chunk's entries in file order (every entry stored under its own id, a later entry with the same id replaces an earlier one) - loop invariant over ext_fold",
+  ["parse::ParseInfo::add_external_files", "external_file::ExternalFilesById::add"], fn="add_external_files", witness="x_roundtrip_structure")
+V("v_extfile_name", "dec_ext", "ExternalFile::name returns the stored name", ["external_file::ExternalFile::name"], fn="ExternalFile::name", witness="x_roundtrip_structure")
+V("v_tsref_getters", "validate_tilesets", "ExternalTilesetReference::{external_file_id, tileset_id} return the stored ids", ["tileset::ExternalTilesetReference::external_file_id", "tileset::ExternalTilesetReference::tileset_id"], fn="external_file_id", witness="x_roundtrip_structure")
+V("v_layer_by_name", "lookups", "AsepriteFile::layer_by_name for EVERY layer list: Some exactly if some layer has that name, and then the layer with the LOWEST id among the matches (loop invariant: no earlier layer matches); `==` on &str is the trusted shim str_eq (R26)",
+  ["file::AsepriteFile::layer_by_name", "layer::Layer::name", "layer::Layer::data", "file::AsepriteFile::layer", "file::AsepriteFile::num_layers"], fn="layer_by_name", witness="x_roundtrip_structure")
+V("v_layers_iter", "lookups", "AsepriteFile::layers() starts at 0 and LayersIter::next yields layer `next` of the same file and advances by one while next < number of layers, then None forever: every layer exactly once, in index order",
+  ["file::AsepriteFile::layers", "file::LayersIter::next"], fn="LayersIter::next", witness="x_roundtrip_structure")
+V("v_get_tag", "lookups", "AsepriteFile::get_tag(id): Some(&tags[id]) iff id < number of tags (optional lookup: None out of range); num_tags is the length",
+  ["file::AsepriteFile::get_tag", "file::AsepriteFile::num_tags"], fn="get_tag", witness="x_roundtrip_structure")
+V("v_layer_name", "lookups", "Layer::name returns the stored name of THIS layer", ["layer::Layer::name"], fn="Layer::name", witness="x_roundtrip_structure")
+V("v_tag_name", "lookups", "Tag::name returns the stored name", ["tags::Tag::name"], fn="Tag::name", witness="x_roundtrip_structure")
+V("v_tileset_name", "validate_tilesets", "Tileset::name returns the stored name", ["tileset::Tileset::name"], fn="Tileset::name", witness="x_roundtrip_structure")
+V("v_palette_entry_id", "pixels", "ColorPaletteEntry::{id, raw_rgba8} return the stored id / the four stored components", ["palette::ColorPaletteEntry::id", "palette::ColorPaletteEntry::raw_rgba8"], fn="ColorPaletteEntry::id", witness="x_roundtrip_structure")
+V("v_tiles_unzip", "pixel_readers", "Tiles::unzip (real text; was an assumed shim of unit dec_cel): inflates exactly 4 * count bytes (precondition: fits a usize - established by TilemapData::parse_chunk) and yields exactly `count` tiles, tile i = masked little-endian dword i of the inflated stream (the chunks_exact chain is the trusted shim R25)",
+  ["tile::Tiles::unzip"], fn="Tiles::unzip", witness=["x_tilemap_views", "x_usable_after_load"])
+V("v_tile_new", "dec_small", "Tile::new / Tile::parse / as_bool: Ok iff 4 bytes; id = dword & id mask, flags = dword & flag mask != 0 (the function the chain of Tiles::unzip maps over)",
+  ["tile::Tile::new", "tile::Tile::parse", "tile::as_bool"], fn="Tile::new", witness="x_tilemap_views")
+V("v_gray_new", "dec_small", "Grayscale::new: Ok iff 2 bytes; (value, alpha) = (byte 0, byte 1) (the function the grayscale chain of from_bytes maps over)", ["pixel::Grayscale::new"], fn="Grayscale::new", witness="x_frames_vs_spec")
+V("v_read_rgba", "dec_small", "pixel::read_rgba: Ok iff 4 bytes; the pixel is those 4 bytes in order (the function the RGBA chain of from_bytes maps over)", ["pixel::read_rgba"], fn="read_rgba", witness="x_frames_vs_spec")
+V("v_take_bytes", "pixel_readers", "AseReader::take_bytes(limit) over ANY byte source (trusted model of Read: remaining bytes + may fail): Ok => exactly `limit` bytes, the next ones, never fewer; enough bytes and no I/O error => Ok whatever follows (C07: trailing bytes do not matter); the buffer grows with the bytes that arrive",
+  ["reader::AseReader::take_bytes"], fn="AseReader::take_bytes", witness=["x_neutral_encodings", "x_truncation"])
+V("v_unzip", "pixel_readers", "AseReader::unzip(n) (trusted model of flate2's decoder: a byte source delivering the inflated stream): Ok => the inflated stream is exactly n bytes long (one more byte is requested to see that nothing follows) and those bytes are returned; n inflated bytes, no corruption => Ok",
+  ["reader::AseReader::unzip"], fn="AseReader::unzip", witness=["x_usable_after_load", "x_truncation"])
+V("v_read_bytes", "pixel_readers", "AseReader::read_bytes(count): Ok => exactly the next `count` bytes and the source advanced by `count`; fewer bytes => Err; every Err is the I/O error (UnexpectedEof or the source's own error: C14); enough bytes and no I/O error => Ok. This replaces the ASSUMED contract of read_bytes used by unit chunks",
+  ["reader::AseReader::read_bytes"], fn="AseReader::read_bytes", witness=["x_truncation", "x_readers"])
+V("v_output_size", "pixel_readers", "pixel::output_size == bytes per pixel * pixel count; the unchecked multiplication needs the product to fit a usize - a PRECONDITION that both callers' contracts establish (cels: 4 * 65535^2; tilesets: the checked_mul filter)",
+  ["pixel::output_size", "file::PixelFormat::bytes_per_pixel"], fn="output_size")
+V("v_from_bytes", "pixel_readers", "RawPixels::from_bytes: Ok iff the byte count is a whole number of pixels; then RGBA is the bytes verbatim in groups of 4, grayscale (value, alpha) pairs, indexed the bytes themselves, and there are len / bpp pixels (the two chunks_exact chains are trusted shims R23 / R24; the per-chunk constructors are Kani's k_from_bytes_*)",
+  ["pixel::RawPixels::from_bytes"], fn="RawPixels::from_bytes", witness="x_frames_vs_spec")
+V("v_from_raw", "pixel_readers", "RawPixels::from_raw: Ok => exactly the declared number of pixels, decoded from exactly the next bpp * count bytes; enough bytes => Ok whatever follows (C07). Callers see take_bytes / from_bytes through their contracts only",
+  ["pixel::RawPixels::from_raw"], fn="RawPixels::from_raw", witness=["x_frames_vs_spec", "x_neutral_encodings"])
+V("v_from_compressed", "pixel_readers", "RawPixels::from_compressed: Ok => exactly the declared number of pixels, decoded from the inflated stream, which is exactly bpp * count bytes long",
+  ["pixel::RawPixels::from_compressed"], fn="RawPixels::from_compressed", witness=["x_frames_vs_spec", "x_usable_after_load"])
+V("v_parse_raw_cel", "dec_cel", "cel::parse_raw_cel (real text; was an assumed shim): size as stored, bpp * w * h fits a usize (the precondition of from_raw), and a cel that loads has EXACTLY width * height pixels - the renderer's row-major index (raster_raw: pixels.len() == w*h) relies on it",
+  ["cel::parse_raw_cel", "cel::ImageSize::parse", "cel::ImageSize::pixel_count"], fn="parse_raw_cel", witness=["x_usable_after_load", "x_frames_vs_spec"])
+V("v_parse_compressed_cel", "dec_cel", "cel::parse_compressed_cel (real text; was an assumed shim): same contract as parse_raw_cel through from_compressed",
+  ["cel::parse_compressed_cel"], fn="parse_compressed_cel", witness=["x_usable_after_load", "x_frames_vs_spec"])
+V("v_tileset_image", "tileset_image", "Tileset::image on EVERY tileset that loaded (ts_wf: pixels embedded, tile size >= 1, tile count * tile height a u32, exactly count*h*w pixels): tile height * tile count cannot overflow, the expect()s cannot fire, the image is tile width x (tile height * tile count) and its bytes are the tileset's pixels in order. The iterator chain is replaced by the trusted shim flat_all (R20)",
+  ["tileset::Tileset::image", "tileset::TileSize::width", "tileset::TileSize::height"], fn="Tileset::image", witness=["x_tilemap_views", "x_usable_after_load"])
+V("v_tileset_tile_image", "tileset_image", "Tileset::tile_image(t) for every loaded tileset and every t < tile_count (the documented panic is the precondition): no overflow in the offset arithmetic, the expect()s cannot fire, the image has exactly the tile size and its bytes are pixels t*w*h .. (t+1)*w*h of the tileset. The iterator chain is replaced by the trusted shim flat_window (R19)",
+  ["tileset::Tileset::tile_image", "tileset::Tileset::tile_count"], fn="Tileset::tile_image", witness=["x_tilemap_views", "x_usable_after_load"])
+V("v_tilesize_pixels_per_tile", "tileset_image", "TileSize::pixels_per_tile == width * height, no u32 overflow (two u16 factors)", ["tileset::TileSize::pixels_per_tile"], fn="TileSize::pixels_per_tile", witness="x_tilemap_views")
+V("v_tileset_strip_stacked", "tileset_image", "C08's last sentence as a client lemma over the two contracts: for every loaded tileset and every tile t, byte k of pixel (x, y) of tile_image(t) is byte k of pixel (x, t * tile height + y) of image(); tile_image has exactly the tile size, image() is tile height * tile count rows high",
+  ["tileset::Tileset::image", "tileset::Tileset::tile_image"], fn="strip_is_the_tiles_stacked", witness="x_tilemap_views")
+V("v_tileset_wf_preserved", "validate_tilesets", "C05 link as a lemma: what Tileset::parse_chunk guarantees (v_dec_tileset: tile size >= 1, strip height a u32, exactly count*h*w pixels if embedded) and TilesetsById::validate's verdict (tileset_validated) imply ts_wf, the precondition of Tileset::image / tile_image",
+  ["tileset::TilesetsById::validate"], fn="tileset_wf_is_preserved")
 V("v_tileset_getters", "validate_tilesets", "Tileset::{id, tile_count, tile_size, base_index, empty_tile_is_id_zero, external_file} return the stored attribute", ["tileset::Tileset::id", "tileset::Tileset::tile_count", "tileset::Tileset::tile_size", "tileset::Tileset::base_index", "tileset::Tileset::empty_tile_is_id_zero", "tileset::Tileset::external_file"], fn="Tileset::tile_size", witness="x_roundtrip_structure")
 V("v_file_tilemap", "tilemap_api", "AsepriteFile::tilemap(layer, frame) for EVERY validated sprite: Some exactly for a tilemap cel of a tilemap layer whose tileset exists (ids in range); then it carries that tileset and that cel, and its logical size is ceil(canvas / tile size) in both directions; no division by zero (tile size >= 1 from the tileset decoder), the assert! cannot fire, the u16 casts are lossless",
   ["file::AsepriteFile::tilemap", "cel::Cel::is_tilemap", "cel::Cel::raw_cel", "tileset::TileSize::from", "tilemap::Tilemap::width", "tilemap::Tilemap::height", "tilemap::Tilemap::tile_size"], fn="AsepriteFile::tilemap", witness=["x_tilemap_views", "x_usable_after_load"])
@@ -379,35 +426,35 @@ def prop(id, level, obls, explanation, **kw):
     d.update(kw)
     PROPS[id] = d
 
-prop("C01", "proof", ACC_V + ["v_tileset_getters", "v_extfiles_add", "v_extfiles_get", "v_tilesets_add", "v_tilesets_get", "v_compute_parents", "v_from_vec", "x_forest_exhaustive", "v_chunk_read", "v_chunk_read_all", "v_dec_layer", "v_dec_layer_type", "v_dec_blend_mode", "v_dec_tags", "v_dec_anim_dir", "v_dec_ext", "v_dec_slice_key", "v_dec_slice9", "v_dec_palette", "v_palette_color", "v_dec_tileset", "v_dec_tileset_ref", "v_check_chunk_bytes"]
+prop("C01", "proof", ACC_V + ["v_layer_by_name", "v_layers_iter", "v_get_tag", "v_layer_name", "v_tag_name", "v_tileset_name", "v_palette_entry_id", "v_add_external_files", "v_extfile_name", "v_tsref_getters", "v_tileset_getters", "v_extfiles_add", "v_extfiles_get", "v_tilesets_add", "v_tilesets_get", "v_compute_parents", "v_from_vec", "x_forest_exhaustive", "v_chunk_read", "v_chunk_read_all", "v_dec_layer", "v_dec_layer_type", "v_dec_blend_mode", "v_dec_tags", "v_dec_anim_dir", "v_dec_ext", "v_dec_slice_key", "v_dec_slice9", "v_dec_palette", "v_palette_color", "v_dec_tileset", "v_dec_tileset_ref", "v_check_chunk_bytes"]
      + ["k_parse_chunk_type", "k_parse_pixel_format", "k_check_chunk_bytes", "k_pixel_format_accessors"] + READER + LAYER_DEC + TAGS_DEC + SLICE_DEC
      + ["k_palette_chunk_20", "k_palette_chunk_26", "k_palette_chunk_35"] + EXT_DEC + TS_DEC + ["v_read_aseprite", "v_parse_pixel_format", "v_parse_frame", "v_num_frames", "v_num_layers", "v_file_layer", "v_file_frame", "x_decoder_contracts", "x_roundtrip_structure", "x_header_extremes"],
-     "Every chunk decoder (layer, tags, external files, new and legacy palettes, tileset, cel, tilemap, user data, colour profile, slice keys), the chunk framing (Chunk::read / read_all), the file header and the frame dispatch are Verus contracts on the real text for EVERY payload length and entity count, field by field against the file-format layout, modulo the reader-primitive contract; 28 public accessors, the tileset / external-file tables and the parent computation are Verus contracts too. The reader primitives and the enum decoders are Kani contracts (enums over their whole domain, primitives and a few decoder shapes on fixed payload sizes with symbolic contents). slice::parse_chunk (iterator collect), by-name lookups (string comparison) and the zlib paths are bounded stand-ins (x_*).")
+     "Every chunk decoder (layer, tags, external files, new and legacy palettes, tileset, cel, tilemap, user data, colour profile, slice keys), the chunk framing (Chunk::read / read_all), the file header and the frame dispatch are Verus contracts on the real text for EVERY payload length and entity count, field by field against the file-format layout, modulo the reader-primitive contract; 28 public accessors, the tileset / external-file tables and the parent computation are Verus contracts too. The reader primitives and the enum decoders are Kani contracts (enums over their whole domain, primitives and a few decoder shapes on fixed payload sizes with symbolic contents). layer_by_name (lowest-numbered match for every layer list; `==` on &str is a trusted shim), the layer iterator (every layer once, in index order), get_tag (None out of range) and the name getters are Verus contracts as well. slice::parse_chunk (iterator collect), tag_by_name (iterator find) and whole files through zlib are bounded stand-ins (x_*).")
 prop("C02", "proof", ["v_frame_image_api", "v_single_visible_frame", "v_frame_image", "v_write_cel", "x_cels_table", "x_forest_exhaustive", "v_celsdata_add_cel", "v_celsdata_cel", "v_write_raw_cel", "v_write_tilemap_cel", "v_tile_slice", "v_tilemap_tile", "v_is_visible", "k_mul_un8", "k_cels_table", "x_mode_table", "x_frames_vs_spec", "x_cel_order_irrelevant", "x_blend_public_api"],
      "frame_image is proved by Verus on the real text, for every validated sprite, to be the fold of the frame's cels in increasing layer order over transparent black with hidden layers skipped; write_cel picks the layer's mode / opacity / tileset and resolves links; both rasterisers are proved FUNCTIONALLY correct for unbounded sizes (placement, clipping, row-major index, tile grid, opacity product, blend call); CelsData::add_cel touches exactly one slot (storage order cannot matter). mul_un8 == round8 is a Kani contract. The Box<dyn Fn> dispatch table (Kani ICE, no dyn in Verus), clone_as_image_rgba and the frame_cels iterator are trusted shims exercised by bounded stand-ins.")
 prop("C03", "proof", BLEND_LEAVES + BLEND_WRAPPERS + ["k_parse_blend_mode", "x_mode_table", "x_soft_light", "x_hsl_kernels", "x_blend_public_api"],
      "14 integer modes: leaves == Aseprite macros over their full domains, normal/merge == reference over all 2^72 inputs, every mode function == RGBA_BLENDER_N structure modulo callees (uninterpreted-function abstraction). soft light and the four HSL modes: integer skeleton proved, f64 kernels bounded-exec (soft light exhaustive over 65536 pairs).")
-prop("C04", "proof", ["x_cel_table_memory"] + VDEC_IDS + ["v_chunk_read", "v_chunk_read_all", "v_parse_chunk_type", "v_celsdata_new", "v_parseinfo_new", "v_parseinfo_validate", "v_celsdata_validate", "v_rawcel_validate", "v_layersdata_validate", "v_tilesets_validate", "v_compute_parents", "v_from_vec", "k_check_chunk_bytes", "k_scale_6bit", "k_parse_chunk_type", "k_parse_pixel_format"] + LAYER_DEC + TAGS_DEC + SLICE_DEC + PAL_DEC + EXT_DEC
+prop("C04", "proof", ["x_cel_table_memory"] + VDEC_IDS + ["v_read_bytes", "v_parse_raw_cel", "v_parse_compressed_cel", "v_take_bytes", "v_unzip", "v_output_size", "v_from_bytes", "v_from_raw", "v_from_compressed", "v_chunk_read", "v_chunk_read_all", "v_parse_chunk_type", "v_celsdata_new", "v_parseinfo_new", "v_parseinfo_validate", "v_celsdata_validate", "v_rawcel_validate", "v_layersdata_validate", "v_tilesets_validate", "v_compute_parents", "v_from_vec", "k_check_chunk_bytes", "k_scale_6bit", "k_parse_chunk_type", "k_parse_pixel_format"] + LAYER_DEC + TAGS_DEC + SLICE_DEC + PAL_DEC + EXT_DEC
      + TS_DEC + CEL_DEC + UD_DEC + CP_DEC + READER + ["k_tilemap_bits", "k_tile_parse", "k_cels_table", "v_read_aseprite", "v_parse_frame", "v_ud_set_tag_user_data", "v_ud_add_user_data", "v_ud_add_cel", "v_cel_mut", "x_decoder_contracts", "x_total_load"],
      "Totality contracts on the real text (Verus): every decoder, the chunk framing, the header / frame loop, the dispatch, the validation stage and the parent computation return Ok or Err for EVERY input with no overflow, index error or reachable panic site; every Kani decoder harness also discharges the automatic no-panic / no-overflow / in-bounds checks for all contents of its payload size. Whole-load totality (zlib, stack depth, allocation under a 4 GiB address-space limit, hangs) is fault enumeration in an isolated child process.", level_note_extra="fault enumeration for the composition")
-prop("C05", "proof", ["v_frame_image_api", "v_cel_image_api", "v_tilemap_image_api", "v_tilesets_get", "v_file_tilemap", "v_from_vec", "v_parseinfo_validate", "v_celsdata_new", "v_parseinfo_new", "v_tilesets_validate", "v_celsdata_validate", "v_rawcel_validate", "v_imagecontent_validate", "v_layersdata_validate", "v_write_cel", "v_frame_image", "v_layer_image", "v_validate_indexed", "v_rawpixels_validate", "v_indexed_as_rgba", "v_dec_tilemap", "v_dec_tileset", "v_write_raw_cel", "v_write_tilemap_cel", "v_tile_slice", "v_tilemap_tile", "v_tilemap_lookup", "v_tile_offsets", "v_is_visible", "v_pixels_per_tile", "k_validate_indexed", "k_indexed_as_rgba", "k_tileset_head_34", "k_tileset_head_44", "x_usable_after_load"],
-     "Assume/guarantee chain on the real text (Verus, unbounded; DESIGN 10.7): the validation stage (ParseInfo::validate, CelsData::validate, RawCel::validate, LayersData::validate, TilesetsById::validate, from_vec) is proved to deliver exactly the preconditions under which frame_image / write_cel / layer_image / the rasterisers / tile lookups / AsepriteFile::tilemap / the image accessors are proved panic-free (their 'should have been caught by validate' sites are unreachable). The correspondence between the two sides, the zlib length checks and clone_as_image_rgba are exercised by fault enumeration: every loadable corrupted file is driven through every accessor.")
-prop("C06", "proof", ["v_indexed_as_rgba", "v_gray_into_rgba", "v_is_background", "v_rawpixels_validate", "v_dec_cel", "v_dec_cel_content", "v_dec_cel_common", "v_dec_image_size", "v_pixel_count", "v_cel_is_empty", "v_cel_frame", "v_cel_layer", "v_celsdata_cel"] + PIX + ["k_cel_chunk_15", "k_cel_chunk_17", "k_cel_chunk_18", "k_cel_raw_rgba_28", "k_cel_raw_gray_24", "k_cel_raw_indexed_23", "v_write_raw_cel", "x_frames_vs_spec", "x_roundtrip_structure", "x_neutral_encodings"],
-     "Pixel conversions proved for all values; cel header / raw payload decode on fixed sizes; placement + alpha scaling is the Verus rasteriser contract; zlib storage, linked cels and the transparent-index rule end-to-end are bounded-exec against the composition spec.")
-prop("C07", "exploration", ["v_read_aseprite", "v_parse_frame", "v_celsdata_add_cel", "k_parse_chunk_type", "k_layer_chunk_24", "k_tileset_head_44", "x_neutral_encodings", "x_cel_order_irrelevant"],
-     "Mostly glue and zlib: bounded exploration over seeded models x ~30 encoding choices; contract part: ignorable chunk codes map to the three ignorable kinds (all u16), trailing payload bytes do not change a decoder's result (layer / tileset shapes with slack bytes).")
-prop("C08", "proof", ["v_tilemap_image_api", "v_tileset_getters", "v_tilesets_get", "v_tilesets_add", "v_file_tilemap", "v_write_tilemap_cel", "v_dec_tilemap", "v_dec_bitmask", "v_dec_tileset", "k_tile_parse", "k_tile_bitmask_header", "k_tilemap_bits", "k_pixels_per_tile", "v_tilemap_tile", "v_tilemap_lookup", "v_tile_offsets", "v_tile_slice", "v_pixels_per_tile", "v_write_tilemap_cel", "x_tilemap_views"],
-     "The tilemap rasteriser is proved FUNCTIONALLY (every canvas pixel shows pixel d%tile of the tile stored at d/tile, written exactly once); tile lookup for all u32 coordinates, offsets, slicing, AsepriteFile::tilemap (logical size = ceil(canvas / tile)), Tilemap::image == its cel's image, the tileset decoder (sizes without overflow, strip height fits u32) and the tileset table are Verus contracts over unbounded sizes; tile word decode is a Kani contract. Tileset::image / tile_image (iterator chains) are compared with the lookups on seeded sprites.")
+prop("C05", "proof", ["v_frame_image_api", "v_cel_image_api", "v_tilemap_image_api", "v_tilesets_get", "v_file_tilemap", "v_from_vec", "v_parseinfo_validate", "v_celsdata_new", "v_parseinfo_new", "v_tilesets_validate", "v_celsdata_validate", "v_rawcel_validate", "v_imagecontent_validate", "v_layersdata_validate", "v_write_cel", "v_frame_image", "v_layer_image", "v_validate_indexed", "v_rawpixels_validate", "v_indexed_as_rgba", "v_dec_tilemap", "v_dec_tileset", "v_tileset_wf_preserved", "v_tileset_image", "v_tileset_tile_image", "v_tilesize_pixels_per_tile", "v_parse_raw_cel", "v_parse_compressed_cel", "v_take_bytes", "v_unzip", "v_output_size", "v_from_bytes", "v_from_raw", "v_from_compressed", "v_tiles_unzip", "v_write_raw_cel", "v_write_tilemap_cel", "v_tile_slice", "v_tilemap_tile", "v_tilemap_lookup", "v_tile_offsets", "v_is_visible", "v_pixels_per_tile", "k_validate_indexed", "k_indexed_as_rgba", "k_tileset_head_34", "k_tileset_head_44", "x_usable_after_load"],
+     "Assume/guarantee chain on the real text (Verus, unbounded; DESIGN 10.7): the validation stage (ParseInfo::validate, CelsData::validate, RawCel::validate, LayersData::validate, TilesetsById::validate, from_vec) is proved to deliver exactly the preconditions under which frame_image / write_cel / layer_image / the rasterisers / tile lookups / AsepriteFile::tilemap / the image accessors are proved panic-free (their 'should have been caught by validate' sites are unreachable). The pixel side of the chain is contracts too: take_bytes / unzip return exactly the declared number of bytes or fail (real text over a trusted model of Read / flate2), from_raw / from_compressed / Tiles::unzip deliver exactly the declared number of pixels / tiles, parse_raw_cel / parse_compressed_cel therefore width x height pixels, Tileset::parse_chunk count x height x width pixels, validation preserves that (lemma), and under it Tileset::image / tile_image cannot overflow or hit an expect() and have their documented sizes. The correspondence between units, the chunks_exact / flat_map iterator chains (trusted shims) and clone_as_image_rgba are exercised by fault enumeration: every loadable corrupted file is driven through every accessor.")
+prop("C06", "proof", ["v_indexed_as_rgba", "v_gray_into_rgba", "v_is_background", "v_validate_indexed", "v_parse_raw_cel", "v_parse_compressed_cel", "v_take_bytes", "v_unzip", "v_output_size", "v_from_bytes", "v_from_raw", "v_from_compressed", "v_gray_new", "v_read_rgba", "v_rawpixels_validate", "v_dec_cel", "v_dec_cel_content", "v_dec_cel_common", "v_dec_image_size", "v_pixel_count", "v_cel_is_empty", "v_cel_frame", "v_cel_layer", "v_celsdata_cel"] + PIX + ["k_cel_chunk_15", "k_cel_chunk_17", "k_cel_chunk_18", "k_cel_raw_rgba_28", "k_cel_raw_gray_24", "k_cel_raw_indexed_23", "v_write_raw_cel", "x_frames_vs_spec", "x_roundtrip_structure", "x_neutral_encodings"],
+     "Pixel conversions proved for all values; RawPixels::from_bytes / from_raw / from_compressed (RGBA verbatim, (value, alpha) pairs, indices; exactly the declared pixel count from exactly those bytes) and the per-pixel constructors are Verus contracts on the real text for every length (the chunks_exact chains are trusted shims); cel header / raw payload decode additionally on fixed sizes with Kani; placement + alpha scaling is the Verus rasteriser contract; zlib storage, linked cels and the transparent-index rule end-to-end are bounded-exec against the composition spec.")
+prop("C07", "exploration", ["v_read_aseprite", "v_parse_frame", "v_celsdata_add_cel", "v_take_bytes", "v_from_raw", "v_read_bytes", "k_parse_chunk_type", "k_layer_chunk_24", "k_tileset_head_44", "x_neutral_encodings", "x_cel_order_irrelevant"],
+     "Mostly glue and zlib: bounded exploration over seeded models x ~30 encoding choices; contract part: ignorable chunk codes map to the three ignorable kinds (all u16), trailing payload bytes do not change a decoder's result (layer / tileset shapes with slack bytes; Verus: take_bytes / from_raw succeed whatever follows the declared bytes).")
+prop("C08", "proof", ["v_tilemap_image_api", "v_tileset_strip_stacked", "v_tileset_image", "v_tileset_tile_image", "v_tileset_getters", "v_tilesets_get", "v_tilesets_add", "v_file_tilemap", "v_write_tilemap_cel", "v_tiles_unzip", "v_tile_new", "v_dec_tilemap", "v_dec_bitmask", "v_dec_tileset", "k_tile_parse", "k_tile_bitmask_header", "k_tilemap_bits", "k_pixels_per_tile", "v_tilemap_tile", "v_tilemap_lookup", "v_tile_offsets", "v_tile_slice", "v_pixels_per_tile", "v_write_tilemap_cel", "x_tilemap_views"],
+     "The tilemap rasteriser is proved FUNCTIONALLY (every canvas pixel shows pixel d%tile of the tile stored at d/tile, written exactly once); tile lookup for all u32 coordinates, offsets, slicing, AsepriteFile::tilemap (logical size = ceil(canvas / tile)), Tilemap::image == its cel's image, the tileset decoder (sizes without overflow, strip height fits u32) and the tileset table are Verus contracts over unbounded sizes; tile word decode is a Kani contract. Tileset::image / tile_image are Verus contracts on the real text (documented sizes, bytes = the tileset's pixels; the flat_map chains are trusted shims) and the property's last sentence - the strip is the tile images stacked in index order - is a client lemma over the two contracts; Tiles::unzip yields exactly width x height tiles, tile i = masked dword i. Images and lookups are compared on seeded sprites as well.")
 prop("C09", "proof", ["v_acc_layer_parent", "v_compute_parents", "v_from_vec", "v_is_visible", "v_frame_image", "x_forest_exhaustive"],
      "compute_parents is proved by Verus on the real text for ALL layer sequences (any length, any depth) whose first level is 0 - the forests of the property are a subset; from_vec establishes that precondition; Layer::is_visible is proved equal to 'own flag and all ancestors' flags'; Layer::parent returns the stored parent; frame_image skips exactly the cels whose layer is hidden directly or through an ancestor. All of it is additionally executed for every forest of up to 6 (quick) / 8 (thorough) layers and every flag assignment.")
 prop("C10", "proof", UD_V + ["v_dec_userdata", "v_acc_cel_user_data", "v_acc_layer_user_data", "v_acc_tag_user_data", "v_acc_asepritefile_sprite_user_data"] + UD_DEC + ["x_decoder_contracts", "x_userdata_exhaustive", "x_roundtrip_structure"],
      "The attachment rule is a Verus contract on the REAL code, extracted each run, for unbounded tables and chunk sequences: ParseInfo::add_user_data attaches a record to the entity named by the current context and changes nothing else (add_layer / add_cel / add_tags / add_slice / set_tag_user_data / CelsData::cel_mut likewise), and parse_frame - the chunk dispatch - updates that context per chunk kind exactly by the rule (fold over the chunk sequence; ignorable chunks and the new palette leave it untouched, tags only count in frame 0, a legacy palette selects the sprite). Assumed in that unit: the decoders' results (their own contracts are the dec_* units) and the chunk framing. The same rule is additionally executed for all admissible chunk sequences up to length 5 / 6 through the public API; the user-data chunk decoder is a Verus (unbounded) and Kani (fixed shapes) contract.")
 prop("C11", "proof", ["v_parse_frame", "v_dec_old04", "v_dec_old11", "v_dec_palette", "v_palette_color", "v_validate_indexed", "v_rawpixels_validate", "v_scale_6bit"] + PAL_DEC + ["k_validate_indexed", "x_decoder_contracts", "x_palette_precedence", "x_indexed_needs_palette"],
      "New and legacy (0x0004 / 0x0011) palette decoders are Verus contracts for every payload (accumulating skip, count 0 = 256, later packet overrides, 6-bit scaling 4c + c/16 with components >= 64 refused); parse_frame pins the precedence rule as a fold (a new-format chunk always replaces the palette, a legacy chunk only fills an empty one); validate_indexed_pixels / RawPixels::validate: an indexed sprite loads iff EVERY pixel index has a palette entry. 6-bit scaling is also a full-domain Kani contract; precedence and the load failure are executed on seeded files as well.")
-prop("C13", "exploration", READER + ["v_chunk_read", "v_chunk_read_all", "v_read_aseprite", "v_parse_frame", "k_check_chunk_bytes", "v_check_chunk_bytes", "v_dec_layer", "v_dec_tags", "v_dec_cel", "x_truncation"],
-     "Contracts (Verus, every length): Chunk::read is Ok iff the WHOLE declared chunk is present, read_all yields exactly `count` complete chunks, parse_frame is Ok only if the 16-byte frame header is present, read_aseprite is Ok only after exactly num_frames frames, each decoder is Ok iff every declared byte of its payload is present; reader primitives return an error value whenever fewer bytes remain (Kani, every position of a fixed-size cursor). The top-level statement compares two runs (file vs prefix) and is decided by executing every cut offset of generated and corpus files.")
-prop("C14", "exploration", ["k_error_mapping", "k_reader_prims_6", "k_reader_sequence", "k_reader_schedule_5", "k_reader_hard_error_4", "k_reader_schedule", "k_reader_hard_error", "x_readers"],
-     "Kani: AseReader's primitives over a scripted reader return the in-memory result for EVERY split of the stream into read() sizes and EVERY placement of transient Interrupted results (5- and 7-byte streams), and with a hard error anywhere they return the right value or that very error; error mapping (io::Error -> IoError, source()) is a Kani contract. read_bytes (std read_to_end, intractable for CBMC) and whole files are bounded-exec with scripted readers (short reads, Interrupted, BufReader, files) and a hard error of 6 kinds injected at byte offsets.")
+prop("C13", "exploration", READER + ["v_chunk_read", "v_chunk_read_all", "v_read_aseprite", "v_parse_frame", "v_read_bytes", "v_take_bytes", "v_unzip", "k_check_chunk_bytes", "v_check_chunk_bytes", "v_dec_layer", "v_dec_tags", "v_dec_cel", "x_truncation"],
+     "Contracts (Verus, every length): Chunk::read is Ok iff the WHOLE declared chunk is present, read_all yields exactly `count` complete chunks, parse_frame is Ok only if the 16-byte frame header is present, read_aseprite is Ok only after exactly num_frames frames, each decoder is Ok iff every declared byte of its payload is present; reader primitives return an error value whenever fewer bytes remain (Kani, every position of a fixed-size cursor); read_bytes / take_bytes / unzip fail whenever fewer than the declared bytes arrive (Verus, real text over a trusted model of Read). The top-level statement compares two runs (file vs prefix) and is decided by executing every cut offset of generated and corpus files.")
+prop("C14", "exploration", ["k_error_mapping", "k_reader_prims_6", "k_reader_sequence", "k_reader_schedule_5", "k_reader_hard_error_4", "k_reader_schedule", "k_reader_hard_error", "v_read_bytes", "x_readers"],
+     "Kani: AseReader's primitives over a scripted reader return the in-memory result for EVERY split of the stream into read() sizes and EVERY placement of transient Interrupted results (5- and 7-byte streams), and with a hard error anywhere they return the right value or that very error; error mapping (io::Error -> IoError, source()) is a Kani contract. read_bytes is a Verus contract over a trusted model of Read (Ok = exactly the next bytes; every Err is the I/O error, its own UnexpectedEof or the source's); std read_to_end itself (intractable for CBMC) and whole files are bounded-exec with scripted readers (short reads, Interrupted, BufReader, files) and a hard error of 6 kinds injected at byte offsets.")
 prop("C15", "proof", ["v_parse_chunk_type", "v_tilesets_validate", "v_read_aseprite", "v_parse_pixel_format", "v_dec_colorprofile", "v_dec_cp_type", "v_dec_tilemap", "v_dec_cel_content", "v_dec_layer_type", "v_dec_blend_mode", "v_dec_anim_dir", "v_dec_layer", "v_dec_tags", "k_parse_pixel_format", "k_parse_layer_type", "k_parse_blend_mode", "k_parse_animation_direction", "k_parse_chunk_type", "k_cel_chunk_18", "k_cel_chunk_17", "k_tilemap_bits"] + CP_DEC + ["x_decoder_contracts", "x_refusals"],
      "Every refusal is a branch of a contracted function and proved over the whole code domain: pixel ratio and colour depth (read_aseprite, Verus), chunk type, layer type, blend mode, animation direction, cel type, colour profile type/flags, bits per tile (Verus and Kani), tileset without embedded pixels (TilesetsById::validate, Verus); additionally executed at every position where the feature can occur.")
 prop("C16", "other", ["s_send_sync", "x_determinism", "x_total_load", "v_tilemap_lookup", "v_tile_offsets", "x_tilemap_views", "v_check_chunk_bytes", "v_read_aseprite", "v_parse_frame", "v_celsdata_validate", "v_frame_image", "v_write_raw_cel", "v_write_tilemap_cel", "v_tile_slice", "v_pixels_per_tile", "v_compute_parents", "k_mul_un8", "k_blend8", "k_merge", "k_normal_r", "k_normal_g", "k_normal_b", "k_pixel_count", "k_pixels_per_tile"],
